@@ -644,6 +644,22 @@ func checkFrt(c FrtCase) error {
 		if hole != want {
 			return fmt.Errorf("SInterP(%q, %s value) = %q: hole shows %q, the display form is %q", format, c.Kind, got, hole, want)
 		}
+	case "SInterP0":
+		// no hole at all: the compiler still writes every literal % as %%, so the text comes back unescaped
+		text := c.Pre + c.S + c.Mid + c.S2 + c.Post
+		if got := frt.SInterP(gostrings.ReplaceAll(text, "%", "%%")); got != text {
+			return fmt.Errorf("SInterP without holes (%q): got %q, want %q", gostrings.ReplaceAll(text, "%", "%%"), got, text)
+		}
+	case "SInterP3":
+		v, want, isFloat := c.value()
+		if isFloat {
+			return nil
+		}
+		esc := func(x string) string { return gostrings.ReplaceAll(x, "%", "%%") }
+		got := frt.SInterP(esc(c.Pre)+"%s"+esc(c.Mid)+"%s"+esc(c.Mid)+"%s"+esc(c.Post), c.S2, v, c.S)
+		if w := c.Pre + c.S2 + c.Mid + want + c.Mid + c.S + c.Post; got != w {
+			return fmt.Errorf("SInterP three holes: got %q, want %q (arguments in order, literal text kept)", got, w)
+		}
 	case "SInterP2":
 		v, want, isFloat := c.value()
 		if isFloat {
@@ -789,7 +805,7 @@ func TestFrt(t *testing.T) {
 	defer e.Flush()
 	rapid.Check(t, func(rt *rapid.T) {
 		c := FrtCase{}
-		c.What = rapid.SampledFrom([]string{"SInterP", "SInterP", "SInterP2", "Sprintf1", "Sprintf2", "Printf1", "Pipe", "If", "Tuple", "Ops"}).Draw(rt, "what")
+		c.What = rapid.SampledFrom([]string{"SInterP", "SInterP", "SInterP2", "SInterP0", "SInterP3", "Sprintf1", "Sprintf2", "Printf1", "Pipe", "If", "Tuple", "Ops"}).Draw(rt, "what")
 		c.Kind = rapid.SampledFrom(kinds).Draw(rt, "kind")
 		c.I = rapid.OneOf(rapid.Int64Range(-5, 300), rapid.Int64(), rapid.SampledFrom([]int64{math.MinInt64, math.MaxInt64, -1, 0, 127, 128, 255, 256, 65535, 1 << 31, 1 << 32})).Draw(rt, "i")
 		c.U = rapid.OneOf(rapid.Uint64Range(0, 300), rapid.Uint64(), rapid.SampledFrom([]uint64{math.MaxUint64, 1 << 63, 1<<63 - 1, 255, 65535, 1 << 32})).Draw(rt, "u")
@@ -804,7 +820,9 @@ func TestFrt(t *testing.T) {
 		labels := []string{"what:" + c.What}
 		nt := false
 		switch c.What {
-		case "SInterP", "SInterP2", "Sprintf1", "Sprintf2", "Printf1":
+		case "SInterP0":
+			nt = gostrings.Contains(c.Pre+c.S+c.Mid+c.S2+c.Post, "%")
+		case "SInterP", "SInterP2", "SInterP3", "Sprintf1", "Sprintf2", "Printf1":
 			labels = append(labels, "kind:"+c.Kind)
 			nt = gostrings.HasPrefix(c.Kind, "uint") || gostrings.HasPrefix(c.Kind, "float") || c.Kind == "namedU8"
 		default:
